@@ -83,8 +83,19 @@ class RecordStreamWriter:
         if not self.header_written:
             self.writeheader()
         blob = self.packer.pack(obj)
-        self.fp.write(struct.pack(">I", len(blob)))
-        self.fp.write(blob)
+        self._write_all(struct.pack(">I", len(blob)))
+        self._write_all(blob)
+
+    def _write_all(self, data):
+        # a raw file object may take only part of the data (short write): hand it the rest too, so that the
+        # next frame never starts in the middle of this one
+        while data:
+            written = self.fp.write(data)
+            if written is None or written >= len(data):
+                break
+            if written <= 0:
+                raise IOError("short write on record stream")
+            data = data[written:]
 
     def writeheader(self):
         self.header_written = True
